@@ -14,6 +14,7 @@ import (
 	"honnef.co/go/tools/pattern"
 
 	"golang.org/x/tools/go/analysis"
+	xastutil "golang.org/x/tools/go/ast/astutil"
 )
 
 var SCAnalyzer = lint.InitializeAnalyzer(&lint.Analyzer{
@@ -104,8 +105,33 @@ func run(pass *analysis.Pass) (any, error) {
 				Args: []ast.Expr{replacement},
 			}
 		}
+		if _, ok := replacement.(*ast.BinaryExpr); ok && needsParens(pass, node) {
+			replacement = &ast.ParenExpr{X: replacement}
+		}
 		report.Report(pass, node, "could expand call to math.Pow",
 			report.Fixes(edit.Fix("Expand call to math.Pow", edit.ReplaceWithNode(pass.Fset, node, replacement))))
 	}
 	return nil, nil
+}
+
+// needsParens reports whether a product put in place of node has to be parenthesized:
+// its parent is a unary expression or a binary expression that binds at least as tightly as *.
+func needsParens(pass *analysis.Pass, node ast.Node) bool {
+	path, _ := xastutil.PathEnclosingInterval(code.File(pass, node), node.Pos(), node.End())
+	for i, el := range path {
+		if el != node {
+			continue
+		}
+		if i+1 >= len(path) {
+			return false
+		}
+		switch parent := path[i+1].(type) {
+		case *ast.UnaryExpr:
+			return true
+		case *ast.BinaryExpr:
+			return parent.Op.Precedence() >= token.MUL.Precedence()
+		}
+		return false
+	}
+	return false
 }
